@@ -516,6 +516,10 @@ class Ghost:
                 touched = fs.h(st[2])["ino"]
         if touched is not None and any(r[0] == touched for r in self.pren):
             out.append("RenameFile")            # (e) written while its rename is not yet flushed
+        if name in ("sync_all", "sync_data") and fs.h(st[2]) is not None:
+            for ino, f, t in self.pren:
+                if ino == fs.h(st[2])["ino"] and (dur.dent.get(t) == "dir" or t in self.stale):
+                    out.append("RenameFile")    # (e) synced through a new name that still carries another durable mark
         if name in ("rmdir", "rmdir_all") and any(is_prefix(st[2], r[2]) for r in self.pren):
             out.append("RenameFile")            # (f) the emptiness check does not see a file renamed into the directory
         if name == "sync_dir" and fs.kind(st[2]) == "dir":
@@ -526,6 +530,8 @@ class Ghost:
                         out.append("RenameCrossDir")    # (g) old parent first: the new name can never become durable
                     elif dur.dent.get(f) != ino and not dur.persisted(ino):
                         out.append("RenameCrossDir")    # (h) no inode on disk yet: the flushed rename moves nothing
+                    elif dur.dent.get(f) == ino and not (fs.kind(t) == "file" and fs.lookup(t)[1] == ino):
+                        out.append("RenameCrossDir")    # (j) unlinked at the new name meanwhile: the old durable entry is lost too
         if name == "rename":
             k = fs.kind(st[2])
             if k == "file":
